@@ -35,7 +35,7 @@ A = asynq.asynq
 
 
 class VErr(Exception):
-    __bool__ = lambda self: False       # unusual but legal: a falsy exception object
+    __bool__ = lambda self: sum(map(ord, str(self.args))) % 2 == 0       # unusual but legal: about half of the exception objects are falsy
 
     pass
 
